@@ -32,6 +32,12 @@ performed; the trace entry is (thread, kind, detail)):
     thread_start  name of the new thread
     begin     first step of a new thread
 
+Difference from CPython worth knowing when reusing this: a waiter whose timeout
+fired leaves the waiter list at once, whereas CPython's Condition.wait removes it
+only after it has re-acquired the lock, so that a notify() arriving in between is
+spent on the timed-out waiter.  With a single timed waiter per condition (as in
+waitress.task) the two behave alike.
+
 `time.time()` returns the scheduler's clock, which only moves when a timed wait
 times out or `time.sleep` is called (sleep is a labelled operation too).
 """
